@@ -121,7 +121,106 @@ def _dep_chunk(chunk):
     return len(chunk), nt, fails
 
 
+CALLS = {
+    'plain': "dependency('foo')",
+    'optional': "dependency('foo', required: false)",
+    'newer-with-fallback': "dependency('foo', version: '>=2', required: false, fallback: ['sp', 'foo_dep'])",
+    'newer-no-fallback': "dependency('foo', version: '>=2', required: false)",
+    'with-fallback': "dependency('foo', fallback: ['sp', 'foo_dep'])",
+    'older-ok': "dependency('foo', version: '>=0.5')",
+}
+
+
+def _seq_chunk(chunk):
+    """sequences of lookups of ONE name in one configuration (system foo 1.0 present, a fallback subproject offering 3.0):
+    two calls with identical arguments must give the same dependency wherever they stand in the sequence"""
+    repo = os.environ.get('VERIF_REPO', '/repo')
+    fails, nt = [], 0
+    for seq in chunk:
+        d = tempfile.mkdtemp(prefix='c10seq')
+        try:
+            src, build, pc = os.path.join(d, 'src'), os.path.join(d, 'b'), os.path.join(d, 'pc')
+            os.makedirs(os.path.join(src, 'subprojects', 'sp'))
+            os.makedirs(pc)
+            top = "project('top')\n"
+            for i, c in enumerate(seq):
+                top += f"d{i} = {CALLS[c]}\nmessage('R{i} ' + (d{i}.found() ? d{i}.version() + '/' + d{i}.get_variable(pkgconfig: 'src', internal: 'src', default_value: 'novar') : 'notfound'))\n"
+            open(os.path.join(src, 'meson.build'), 'w').write(top)
+            open(os.path.join(src, 'subprojects', 'sp', 'meson.build'), 'w').write(
+                "project('sp', version: '3.0')\nfoo_dep = declare_dependency(version: '3.0', variables: {'src': 'fallback'})\nmeson.override_dependency('foo', foo_dep)\n")
+            open(os.path.join(pc, 'foo.pc'), 'w').write('src=system\n\nName: foo\nDescription: d\nVersion: 1.0\n')
+            env = dict(os.environ, NINJA=stub_ninja(d), PKG_CONFIG_PATH=pc, PKG_CONFIG_LIBDIR=pc)
+            r = subprocess.run([sys.executable, os.path.join(repo, 'meson.py'), 'setup', build, src], capture_output=True, text=True, env=env)
+            nt += 1
+            casej = {'sequence': list(seq)}
+            if 'Traceback' in r.stdout + r.stderr:
+                fails.append({'case': casej, 'stage': 'sequence', 'detail': 'internal error: ' + (r.stdout + r.stderr)[-300:]})
+                continue
+            got = dict(re.findall(r'Message: R(\d+) (\S+)', r.stdout))
+            seen = {}
+            for i, c in enumerate(seq):
+                g = got.get(str(i))
+                if g is None:
+                    break               # the configuration stopped here (an error is an outcome too; nothing after it ran)
+                if c in seen and seen[c][1] != g:
+                    fails.append({'case': casej, 'stage': 'sequence', 'detail': f'call #{i} {CALLS[c]} yields {g!r}, the identical call #{seen[c][0]} yielded {seen[c][1]!r}'})
+                    break
+                seen.setdefault(c, (i, g))
+        finally:
+            shutil.rmtree(d, ignore_errors=True)
+    return len(chunk), nt, fails
+
+
+def _late_override_chunk(chunk):
+    """meson.override_dependency for a name that a lookup has already resolved in this configuration is an error"""
+    repo = os.environ.get('VERIF_REPO', '/repo')
+    fails, nt = [], 0
+    for first, where in chunk:
+        d = tempfile.mkdtemp(prefix='c10late')
+        try:
+            src, build, pc = os.path.join(d, 'src'), os.path.join(d, 'b'), os.path.join(d, 'pc')
+            os.makedirs(os.path.join(src, 'subprojects', 'sp'))
+            os.makedirs(pc)
+            ov = "meson.override_dependency('foo', declare_dependency(version: '9', variables: {'src': 'late'}))\n"
+            top = f"project('top')\nd0 = {CALLS[first]}\nmessage('R0 ' + (d0.found() ? d0.version() : 'notfound'))\n"
+            top += ov if where == 'top' else "subproject('sp')\n"
+            top += f"d1 = {CALLS[first]}\nmessage('R1 ' + (d1.found() ? d1.version() : 'notfound'))\n"
+            open(os.path.join(src, 'meson.build'), 'w').write(top)
+            open(os.path.join(src, 'subprojects', 'sp', 'meson.build'), 'w').write("project('sp', version: '3.0')\n" + ov)
+            open(os.path.join(pc, 'foo.pc'), 'w').write('src=system\n\nName: foo\nDescription: d\nVersion: 1.0\n')
+            env = dict(os.environ, NINJA=stub_ninja(d), PKG_CONFIG_PATH=pc, PKG_CONFIG_LIBDIR=pc)
+            r = subprocess.run([sys.executable, os.path.join(repo, 'meson.py'), 'setup', build, src], capture_output=True, text=True, env=env)
+            nt += 1
+            got = dict(re.findall(r'Message: R(\d+) (\S+)', r.stdout))
+            casej = {'first_call': first, 'override_in': where}
+            if 'Traceback' in r.stdout + r.stderr:
+                fails.append({'case': casej, 'stage': 'late-override', 'detail': 'internal error: ' + (r.stdout + r.stderr)[-300:]})
+            elif got.get('0') == '1.0' and '1' in got and got['1'] != '1.0':
+                fails.append({'case': casej, 'stage': 'late-override', 'detail': f"{CALLS[first]} yields {got['0']!r}, then after a later override_dependency the identical call yields {got['1']!r}"})
+            elif got.get('0') == '1.0' and r.returncode == 0:
+                fails.append({'case': casej, 'stage': 'late-override', 'detail': 'override_dependency of a name already resolved to the system dependency was accepted'})
+        finally:
+            shutil.rmtree(d, ignore_errors=True)
+    return len(chunk), nt, fails
+
+
 def run(REG, tier, seed, jobs):
+    seqs = [s_ for n_ in (2, 3) for s_ in itertools.product(list(CALLS), repeat=n_) if len(set(s_)) < len(s_)]
+    if tier == 'quick':
+        seqs = random.Random(seed).sample(seqs, 60)
+    sev, snt, sfails = pmap(_seq_chunk, chunked(iter(seqs), 4), jobs)
+    late = [(c, w) for c in ('plain', 'optional', 'older-ok', 'with-fallback') for w in ('top', 'subproject')]
+    lev, lnt, lfails = pmap(_late_override_chunk, chunked(iter(late), 1), jobs)
+    extra = [{'name': 'C10/bounded/lookup-sequences-consistent', 'function': 'dependency() several times in one meson setup (system foo 1.0 through pkg-config, fallback subproject offering 3.0)',
+              'bound': f'{len(seqs)} sequences of 2-3 lookups over {len(CALLS)} call forms ({", ".join(CALLS)}) in which some call form occurs twice' + (' (random sample in the quick tier)' if tier == 'quick' else ' (all)'),
+              'evaluations': sev, 'distinct_nontrivial': snt, 'rule': 'every sequence', 'exhaustive': tier != 'quick', 'failures': sfails},
+             {'name': 'C10/bounded/late-override-refused', 'function': 'dependency() then meson.override_dependency() of the same name (top level / in a subproject) then dependency() again',
+              'bound': f'{len(late)} cases: 4 call forms that resolve to the system dependency x override made at top level or by a subproject', 'evaluations': lev, 'distinct_nontrivial': lnt,
+              'rule': 'every case', 'exhaustive': True, 'failures': lfails}]
+    return _run_policy(REG, tier, seed, jobs, extra)
+
+
+def _run_policy(REG, tier, seed, jobs, extra):
     allc = list(itertools.product(SYS, CONSTR, FB, WM, FFF, REQ, AF))
     if tier == 'quick':
         rnd = random.Random(seed)
@@ -129,9 +228,11 @@ def run(REG, tier, seed, jobs):
     else:
         cases = allc
     ev, nt, fails = pmap(_dep_chunk, chunked(iter(cases), 6), jobs)
-    return {'parts': [{'name': 'C10/bounded/dependency-policy-cross-product', 'function': 'dependency() through meson setup (pkg-config file as the system dependency, local subproject as the fallback)',
+    return {'parts': extra + [{'name': 'C10/bounded/dependency-policy-cross-product', 'function': 'dependency() through meson setup (pkg-config file as the system dependency, local subproject as the fallback)',
                        'bound': f'{len(cases)} of the {len(allc)} combinations of system dependency (absent, 1.0, 2.0) x constraint x fallback kind (none, explicit, wrap [provide], subproject already configured, override) x wrap_mode x force_fallback_for x required x allow_fallback' + (' (random sample in the quick tier)' if tier == 'quick' else ' (all)') + ', each looked up twice',
                        'evaluations': ev, 'distinct_nontrivial': nt, 'rule': 'non-trivial: the combination is allowed', 'exhaustive': tier != 'quick', 'failures': fails}]}
 
 
-CHECKS = {'C10/bounded/dependency-policy-cross-product': (_dep_chunk, lambda c: (c['system'], c['version'], c['fallback_kind'], c['wrap_mode'], c['force_fallback_for'], c['required'], c['allow_fallback']))}
+CHECKS = {'C10/bounded/lookup-sequences-consistent': (_seq_chunk, lambda c: tuple(c['sequence'])),
+          'C10/bounded/late-override-refused': (_late_override_chunk, lambda c: (c['first_call'], c['override_in'])),
+          'C10/bounded/dependency-policy-cross-product': (_dep_chunk, lambda c: (c['system'], c['version'], c['fallback_kind'], c['wrap_mode'], c['force_fallback_for'], c['required'], c['allow_fallback']))}
